@@ -41,7 +41,7 @@ def gen_case(rng):
     if "ca" in kinds and len(kinds) == 2:
         # CA occupies two apparent dims; keep cube <= 3 apparent dims (always true here)
         pass
-    vars_ = [gen.gen_var(rng, k, "v%d" % i, n=rng.randint(1, 4)) for i, k in enumerate(kinds)]
+    vars_ = [gen.gen_var(rng, k, "v%d" % i, n=rng.randint(1, 4), missing_items=True) for i, k in enumerate(kinds)]
     weighted = rng.random() < 0.65
     survey = gen.gen_survey(rng, vars_, weighted=weighted)
     numeric = None
@@ -69,8 +69,8 @@ def lean_ops(case):
     ls = gen.survey_lean(vars_, survey)
     ops = [{"op": "cubeof", "vars": lv, "survey": ls}]
     if n_apparent(vars_) >= 2:
-        wdata = [gen.frac_str(x) for x in gen.tabulate(vars_, survey, case["weighted"])]
-        udata = [gen.frac_str(x) for x in gen.tabulate(vars_, survey, False)]
+        wdata = [gen.frac_str(x) for x in gen.tabulate_valid_items(vars_, survey, case["weighted"])]
+        udata = [gen.frac_str(x) for x in gen.tabulate_valid_items(vars_, survey, False)]
         nparts = _nparts(vars_)
         for k in range(nparts):
             ops.append({"op": "slice_counts", "vars": lv, "data": wdata, "k": k})
@@ -83,7 +83,7 @@ def _nparts(vars_):
     if n_apparent(vars_) < 3:
         return 1
     v = vars_[0]
-    return len(v.items) if v.is_array else len(v.valid_cat_pos)
+    return len(v.valid_item_pos) if v.is_array else len(v.valid_cat_pos)
 
 
 def evaluate(case, louts, ctx):
@@ -93,8 +93,8 @@ def evaluate(case, louts, ctx):
     kinds = sum((v.apparent_kinds() for v in vars_), [])
     ctx.count("kinds:" + "x".join(kinds))
     # 1. tabulator == cubeOf
-    w = [gen.frac_str(x) for x in gen.tabulate(vars_, survey, True)]
-    u = [gen.frac_str(x) for x in gen.tabulate(vars_, survey, False)]
+    w = [gen.frac_str(x) for x in gen.tabulate_valid_items(vars_, survey, True)]
+    u = [gen.frac_str(x) for x in gen.tabulate_valid_items(vars_, survey, False)]
     if louts[0]["weighted"] != w or louts[0]["unweighted"] != u:
         raise common.HarnessFault("python tabulator != Lean cubeOf on %r" % case)
     resp = gen.cube_response(vars_, survey, case["weighted"])
@@ -141,7 +141,7 @@ def evaluate(case, louts, ctx):
         def spec(weighted):
             out = []
             if v.is_array and v.kind == "mr":
-                for k in range(len(v.items)):
+                for k in v.valid_item_pos:
                     out.append(float(sum((w if weighted else 1) for w, a in survey if a[0][k] == 0)))
             else:
                 for c in v.valid_cat_pos:
